@@ -339,6 +339,7 @@ def e_reject(c):
         arg = {"list": v, "tuple": tuple(v), "arr": np.array(v), "str": None}[c["form"]]
         if arg is None:
             iv = [abs(int(x)) if float(x).is_integer() else 7 for x in v]
+            iv = [x if set(str(x)) - {"0", "1"} else (x if x in (0, 1) else 2) for x in iv]   # "1000" would itself be a valid bit string
             if all(x in (0, 1) for x in iv):
                 iv[0] = 2
             arg = " ".join(str(x) for x in iv)
